@@ -1545,6 +1545,32 @@ def r8_input_is_validated_with_syntax_errors(ctx):
     ctx.ob("C16.R8", f"{RD}::_read_character::an empty token is an unexpected end of input", RD, rc.lineno, ok and raises_eof,
            "" if ok and raises_eof else f"`return {tok}` is reachable with an empty token, which only a backslash at the very end of the input produces: it reads as the empty string instead of raising eof_error",
            witness="(read-string \"\\\\\") => \"\"")
+    # (f) the var form names a symbol: what #' is followed by is tested to be one (or an unquote, inside
+    # a template) before (var ...) is built -- read with the symbol reader unconditionally, any text
+    # becomes a symbol whose name is that text
+    rv = fns.get("_read_var_macro")
+    if rv is None:
+        raise AnalysisError("anchor vanished: reader._read_var_macro")
+    gv = CFG(rv)
+    vrets = [nd for nd in gv.nodes if nd.kind == "stmt" and isinstance(nd.ast, ast.Return) and nd.ast.value is not None and "_VAR" in P.un(nd.ast.value)]
+    if not vrets:
+        raise AnalysisError("_read_var_macro no longer returns a (var ...) form")
+    for nd in vrets:
+        c = nd.ast.value
+        var = P.un(c.args[1]) if isinstance(c, ast.Call) and len(c.args) >= 2 else None
+
+        def is_symbol(t, _b, lab, var=var):
+            if t.kind != "test" or var is None:
+                return False
+            txt = P.un(t.ast)
+            if txt in (f"not isinstance({var}, sym.Symbol)", f"not _is_unquote({var})") and lab is False:
+                return True
+            return txt in (f"isinstance({var}, sym.Symbol)", f"_is_unquote({var})") and lab is True
+        raw_sym = any(isinstance(a, ast.Assign) and P.un(a.targets[0]) == var and isinstance(a.value, ast.Call) and P.un(a.value.func) == "_read_sym" for a in ast.walk(rv))
+        ok = var is not None and gv.edge_dominated(nd, is_symbol) and not raw_sym
+        ctx.ob("C16.R8", f"{RD}::_read_var_macro::(var x) is built from a form tested to be a symbol", RD, nd.line, ok,
+               "" if ok else ("the form after #' is read with the symbol reader whatever it starts with: #':a, #'-1 and #''a read as symbols named \":a\", \"-1\", \"'a\"" if raw_sym else "nothing tests that the form after #' is a symbol"),
+               witness="(read-string \"#':a\") => (var <symbol named \":a\">); re-reading the span does not give an equal form")
     if n_c == 0 or n_d == 0:
         raise AnalysisError(f"C16.R8 found no instances for a clause (indexing: {n_c}, raw _read_next: {n_d})")
     ctx.note(f"C16.R8: {n_a} asserts on read values, {n_c} constant subscripts of forms, {n_d} raw _read_next results")
@@ -1623,6 +1649,9 @@ def r9_end_of_input_is_classified_as_such(ctx):
 
 
 SELFTEST = [
+    {"name": "the var macro reads whatever follows with the symbol reader (the repaired defect)", "file": RD, "expect": "C16.R8",
+     "old": "    s = _read_next_form(ctx, \"var form\")\n    if not isinstance(s, sym.Symbol) and not _is_unquote(s):\n        raise ctx.syntax_error(f\"Expected a symbol in var form; got '{s}'\")\n",
+     "new": "    if char_next == \"~\":\n        s = _read_unquote(ctx)\n    else:\n        s = _read_sym(ctx)\n"},
     {"name": "the caller's eof value is the reader's end-of-input marker (the repaired defect)", "file": RD, "expect": "C16.R2",
      "old": "        eof=EOF,\n        features=features,", "new": "        eof=eof,\n        features=features,"},
     {"name": "reader macro prefix at the end of the input is a plain syntax error (the repaired defect)", "file": RD, "expect": "C16.R9",
